@@ -522,9 +522,11 @@ def keyword_position_cases():
 
 
 _STATIC_PREAMBLE = ("struct Qq:\n  0 [+1]  UInt  n\n  1 [+n]  UInt:8[]  d\n  let v = n + 1\n  let c = 7\n  let b = n == 1\n"
-                    "struct Ss:\n  0 [+2]  UInt  m\n  let k = Ee.AA\nenum Ee:\n  AA = 1\n  BB = 2\n")
+                    "struct Ss:\n  0 [+2]  UInt  m\n  let k = Ee.AA\nenum Ee:\n  AA = 1\n  BB = 2\n"
+                    "struct Pp(a: UInt:8, e: Ee):\n  0 [+1]  UInt  n\n  let w = a + 1\n")
 _STATIC_REFS = ["Qq.v", "Qq.c", "Qq.b", "Qq.n", "Qq.d", "Qq.$size_in_bytes", "Qq.$max_size_in_bytes", "Qq.$min_size_in_bytes",
-                "Ss.$size_in_bytes", "Ss.k", "Ss.m", "Ee.AA", "Ee.CC", "Qq.nope", "Qq.v.w", "Ss.$size_in_bits"]
+                "Ss.$size_in_bytes", "Ss.k", "Ss.m", "Ee.AA", "Ee.CC", "Qq.nope", "Qq.v.w", "Ss.$size_in_bits",
+                "Pp.a", "Pp.e", "Pp.w", "Pp.n", "Pp.$size_in_bytes"]
 _STATIC_FORMS = ["%s", "%s + 1", "%s == 3"]
 
 
